@@ -106,6 +106,15 @@ type XferRes struct {
 
 var errInjected = errors.New("injected fault")
 
+// gatedHash makes the user's digest computation a scheduling point: whatever
+// runs concurrently with the final Sum of a file can overtake it.
+type gatedHash struct{ hash.Hash }
+
+func (g gatedHash) Sum(b []byte) []byte {
+	vrt.Gate("hasher.Sum", nil)
+	return g.Hash.Sum(b)
+}
+
 type faultReader struct {
 	r     io.Reader
 	after int
@@ -189,13 +198,15 @@ func xferBody(sc Scn, src fsmodel.Tree, srcDir, destDir string, res *XferRes) Bo
 					res.FaultHit = true
 					return nil, errInjected
 				}
-				return xfer.Hasher(st)
+				h, err := xfer.Hasher(st)
+				return gatedHash{h}, err
 			}
 			opt.NotifyHashed = func(kind fsutil.ChangeKind, p string, fi os.FileInfo, err error) error {
 				mu.Lock()
 				k := ncalls
 				ncalls++
 				mu.Unlock()
+				vrt.Gate("notify "+p, nil)
 				if sc.Fault.Kind == "notify" && k == sc.Fault.K {
 					res.FaultHit = true
 					return errInjected
